@@ -45,6 +45,7 @@ def main(pid):
             try:
                 import cli_model
                 from gosym import Unsupported
+                stubs.HAVOC_BOUND['n'] = 0        # the decoded parameters play no role in this rule: empty arrays keep the path count small
                 progm = cli_model.load_main()
                 smm, table, flagdefs, _ = cli_model.command_table(progm)
                 hl = cli_model.half_loaded_rule(run, progm, smm, table, flagdefs, [c for c in ('prove', 'verify', 'start') if c in table])
